@@ -344,3 +344,10 @@ def safe(f):
         return f()
     except Exception as ex:
         return repr(ex)
+
+
+def passive(ctx, fl, probe):
+    """attach this property's always-on monitor to a foreign workload (the repository's test-suite, see vf/pytest_plugin.py)"""
+    mon = WeightedMonitor(ctx, fl)
+    mon.install(probe)
+    return None
